@@ -164,7 +164,20 @@ pub fn property(v: &RefValue) -> Result<Report, (String, Option<&'static str>)> 
 		}
 	}
 
-	// --- Deserialize a Value from a Value (duplicate-free inputs only; the collapse of duplicates is only specified for serialization)
+	// --- Deserialize a Value from a Value. For duplicate-carrying inputs the property text does not say whether
+	// duplicates are kept ("same structure") or collapse as in serialization: either outcome is accepted, anything else is not.
+	if dup && !has_a && !token_first {
+		if let Ok(d) = json_syntax::from_value::<Value>(value.clone()) {
+			let got = RefValue::from_value(&d);
+			let kept = same_modulo_number_spelling(v, &got, "$", &|_| true);
+			let collapsed = same_modulo_number_spelling(&serialize_model(v), &got, "$", &|_| true);
+			if let (Err((m1, s1)), Err((m2, _))) = (&kept, &collapsed) {
+				if s1.is_none() {
+					return Err((format!("from_value::<Value> of a value with duplicate keys is neither the same structure ({m1}) nor the serialization-style collapse ({m2})"), None));
+				}
+			}
+		}
+	}
 	if !dup {
 		match json_syntax::from_value::<Value>(value.clone()) {
 			Ok(d) => {
@@ -342,7 +355,7 @@ pub fn run(ctx: &mut Ctx) {
 			ctx,
 			fam,
 			n,
-			|| arb_value_with(gen::arb_number(true), false, 0),
+			|| arb_value_with(prop_oneof![4 => gen::arb_number(true), 1 => super::c09::arb_respelled_double()].boxed(), false, 0),
 			|v| outcome(property(v)),
 			|v| json!({"value": v.encode()}),
 		);
